@@ -75,7 +75,7 @@ func main() {
 		},
 		Budget: func(run *core.Run) time.Duration {
 			if run.Quick() {
-				return 180 * time.Second
+				return 600 * time.Second // a safety net: the quick list completes in 1-3 minutes unless the machine is heavily loaded
 			}
 			return 12 * time.Minute
 		},
